@@ -8,6 +8,9 @@ use vstd::prelude::*;
 use core::marker::PhantomData;
 use core::ops::{Bound, ControlFlow};
 use core::alloc::Allocator;
+// path spellings of the source files (`deser::Error`, `ser::Result`, ...) resolve inside the
+// unit as they do in the crate: a change that merely writes a path differently stays decidable
+mod deser { pub use super::{Error, Result}; }
 verus! {
 
 global size_of usize == 8;
